@@ -2,7 +2,7 @@
 
 Functions under contract: AsyncFIXConnection.send_msg (real body, with _state_set inlined),
 Codec.encode (sequence-number choice, real body, tag loop by the append-only rule),
-FIXSession.allocate_next_num_out.  Boundary contracts: Journaler.persist_msg (proved in C13),
+FIXSession.allocate_next_num_out.  Boundary contracts: Journaler.persist_msg (assumed, C13 not built),
 StreamWriter.write/drain (ghost wire trace), application hook on_state_change (A-HOOK).
 
 History part ("consecutive from the stored counter over all histories") = these per-call clauses
@@ -276,7 +276,7 @@ PROPERTY = Property(
         "the invariant Inv (counters >= 1, stored = live - 1, no journal row at or above the live counters, writer "
         "present in connected states) is assumed in the pre-state and re-established on every accepting path",
         "Journaler.persist_msg behaves as its abstract contract (stored under find_seq_no(bytes), DuplicateSeqNoError and "
-        "no change when present) - proved on the SQL body in C13; find_seq_no(utf8(encode(m))) is the number chosen by "
+        "no change when present) - an unchecked assumption: the C13 check of the SQL body is not built; find_seq_no(utf8(encode(m))) is the number chosen by "
         "encode (frame view) - the header layout part is proved here (seqno.field34_is_chosen_number)",
         "A-HOOK: on_state_change does not touch connection, session or journal state and does not raise",
         "A-IO: StreamWriter.write/drain do not raise; A-LOG: logging is effect free",
